@@ -1,10 +1,58 @@
 (* C04 — resynchronisation and bounded retry. *)
 From GV Require Import Base.Bytes Base.Hex Base.LE Vedirect.Frame Vedirect.FrameFacts
-     Vedirect.Port Vedirect.Driver Vedirect.DriverFacts.
+     Vedirect.Port Vedirect.Driver Vedirect.DriverFacts Vedirect.Resync Vedirect.ResyncFacts.
 
-(* "fails after writing at most eight command frames": for every state, script and fault
-   schedule a register access performs at most eight Write calls, each carrying the Get
-   frame of the requested address *)
+(* REFINEMENT.  On every fault-free script (no write faults; read timeouts and read errors
+   allowed anywhere; any chunking of the data; any stale bytes in the reader's buffer and in
+   the port) the concrete driver — events, bufio with its 4096-byte buffer, fuel, the eight
+   tries — computes exactly what the abstract line machine computes on the plain stream of
+   bytes and barriers: the same result, the same number of frames written, the same
+   left-over. *)
+Theorem C04_refines : forall c idle addr s, oks s ->
+  let '(res, s') := ve_command_get c idle addr s in
+  let '(ares, w, rest, reacts) := a_get_call idle addr (st_items s) (reactions (pt s)) in
+  oks s' /\ rest = st_items s' /\ reacts = reactions (pt s') /\
+  nwrites (pt s') = (nwrites (pt s) + w)%nat /\ result_matches ares res.
+Proof. exact ve_command_get_refines. Qed.
+Print Assumptions C04_refines.
+
+(* SUCCESS.  If each of the first k-1 attempts is answered by something that does not end the
+   access (noise without ':', async frames, a partial frame, silence, or one line that is
+   invalid / for another register / too short) and the k-th (k <= 8) by a valid matching
+   response, possibly behind noise and async frames, the value is returned after exactly k
+   command frames. *)
+Theorem C04_success : forall tries addr v good more fails w0,
+  (List.length fails < tries)%nat ->
+  Forall (fun r => attempt_fails addr (reaction_items r)) fails ->
+  attempt_succeeds addr v (reaction_items good) ->
+  exists rest, a_get tries addr [] (fails ++ good :: more) w0 = (AValue v, (w0 + List.length fails + 1)%nat, rest, more).
+Proof. exact a_get_success. Qed.
+Print Assumptions C04_success.
+
+(* FAILURE.  If no attempt delivers a valid matching response the access gives up after
+   exactly eight (= tries) command frames. *)
+Theorem C04_gives_up : forall addr tries fails more w0,
+  List.length fails = tries ->
+  Forall (fun r => attempt_fails addr (reaction_items r)) fails ->
+  exists rest, a_get tries addr [] (fails ++ more) w0 = (AGaveUp, (w0 + tries)%nat, rest, more).
+Proof. exact a_get_gives_up. Qed.
+Print Assumptions C04_gives_up.
+
+(* text-protocol noise without ':' of any length, and silence, are failing attempts *)
+Theorem C04_noise_fails : forall addr d, ~ In c_colon d -> attempt_fails addr (reaction_items [RData d]).
+Proof. exact noise_fails. Qed.
+Print Assumptions C04_noise_fails.
+
+(* STALE BYTES.  After 100 ms or more of idleness the result does not depend on what is
+   buffered or pending (e.g. an outdated valid response for the same register): the
+   abstract machine starts from the empty left-over. *)
+Theorem C04_idle_flush : forall addr stale1 stale2 reactions,
+  a_get_call true addr stale1 reactions = a_get_call true addr stale2 reactions.
+Proof. exact a_get_call_idle. Qed.
+Print Assumptions C04_idle_flush.
+
+(* for every state, script and fault schedule a register access performs at most eight
+   Write calls, each carrying the Get frame of the requested address *)
 Theorem C04_never_more_than_8 :
   forall c idle addr s, (nwrites (pt (snd (ve_command_get c idle addr s))) <= nwrites (pt s) + 8)%nat.
 Proof. exact ve_command_get_at_most_8_writes. Qed.
@@ -16,10 +64,21 @@ Theorem C04_frames_written :
 Proof. exact ve_command_get_loop_frames. Qed.
 Print Assumptions C04_frames_written.
 
-(* the first attempt that consumes a valid matching response ends the access with its value *)
 Theorem C04_value_at_once :
   forall tries c idle addr s raw v s1,
     ve_command c idle 7 addr s = (Ok raw, s1) -> classify_get addr raw = GValue v ->
     ve_command_get_loop (S tries) c idle addr s = (Ok v, s1).
 Proof. exact value_returned_at_once. Qed.
 Print Assumptions C04_value_at_once.
+
+(* non-vacuity: a concrete scenario of the property — stale outdated answer in the port,
+   idle call, noise, an async frame, a bad-checksum frame, then the good frame at attempt 3 *)
+Example C04_scenario :
+  let addr := 60912 in
+  let good := [x3a;x37;x46;x30;x45;x44;x30;x30;x39;x36;x30;x30;x44;x42;x0a] in            (* ":7F0ED009600DB\n" *)
+  let bad  := [x3a;x37;x46;x30;x45;x44;x30;x30;x39;x36;x30;x30;x44;x43;x0a] in            (* wrong check byte *)
+  let asyncf := [x3a;x41;x46;x30;x45;x44;x30;x30;x39;x36;x30;x30;x44;x38;x0a] in
+  fst (fst (fst (a_get_call true addr (map IByte good)
+     [[RData [x56;x09;x31;x32;x0d;x0a]]; [RData asyncf; RData bad]; [RData [x50]; RData asyncf; RData good]])))
+  = AValue [x96; x00].
+Proof. vm_compute. reflexivity. Qed.
